@@ -12,8 +12,34 @@ let int_of_cn (n : Lifecycle.n) : int = match n with Lifecycle.N0 -> 0 | Lifecyc
 let cn_of_string (s : string) : Lifecycle.n = cn_of_int (int_of_string s)
 let string_of_cn (n : Lifecycle.n) : string = string_of_int (int_of_cn n)
 
+(* P<drel>.<pending>:<op>+<op>+...   ops: l<n> n<id> s a F<n> v<n> c E y  (program whose counter effects the model computes) *)
+let pop_of_string (o : string) : Lifecycle.pop =
+  let arg () = cn_of_string (String.sub o 1 (String.length o - 1)) in
+  match o.[0] with
+  | 'l' -> Lifecycle.PLabels (arg ())
+  | 'n' -> Lifecycle.PNamed (arg ())
+  | 's' -> Lifecycle.PSection
+  | 'a' -> Lifecycle.PAddrTab
+  | 'F' -> Lifecycle.PFunc (arg ())
+  | 'v' -> Lifecycle.PVreg (arg ())
+  | 'c' -> Lifecycle.PConst
+  | 'E' -> Lifecycle.PEndFunc
+  | 'y' -> Lifecycle.PAnnot
+  | _ -> failwith ("bad program op " ^ o)
+
+let prog_step (t : string) : Lifecycle.step =
+  let n = String.length t in
+  let colon = String.index t ':' in
+  let head = String.sub t 1 (colon - 1) and body = String.sub t (colon + 1) (n - colon - 1) in
+  match String.split_on_char '.' head with
+  | [dr; pend] ->
+    let ops = List.filter (fun s -> s <> "") (String.split_on_char '+' body) in
+    Lifecycle.SProg (List.map pop_of_string ops, cn_of_string dr, pend = "1")
+  | _ -> failwith ("bad P token " ^ t)
+
 let step_of_token (t : string) : Lifecycle.step =
   let n = String.length t in
+  if n > 0 && t.[0] = 'P' then prog_step t else
   if n > 0 && t.[0] = 'G' then begin
     match String.split_on_char '.' (String.sub t 1 (n - 1)) with
     | [ds; dl; dr; dv; dj; pend] ->
